@@ -189,7 +189,7 @@ def r2_release_restores_and_notifies(chk: Check):
                         f"{qual}: after the amount was given back some path reaches the end without aio_notify() -- a waiting job that now fits is never re-checked", loc)
             for n in notif:
                 conds = [(src(t.ast), pol) for t, pol in g.guards(n) if t.kind == "test" and "tf is None" not in src(t.ast)]
-                conds = [c for c in conds if not c[0].endswith("is None")]
+                conds = [c for c in conds if not c[0].endswith("is None") and not c[0].endswith(" in self.cache")]
                 chk.require(not conds, chk.fkey(f, "notify unconditional"), f"{qual}: aio_notify() is conditional on {conds}; a release that leaves units free must also wake waiters that need several units", chk.loc(f.module, n.ast))
                 # outside the locks
                 inside = [a for a in _anc(n.ast) if isinstance(a, ast.With)]
